@@ -623,6 +623,11 @@ func (env *SpecEnv) call(n *ast.CallExpr) Val {
 			return vBool(sEq(a.T, b.T))
 		}
 		return vBool(sEq(a.T, b.T))
+	case "mkslice":
+		// mkslice(arr, off, len): the byte window [off, off+len) of array arr
+		need(3)
+		a, o, l := arg(0), arg(1), arg(2)
+		return Val{K: KSlc, T: mkSlc(a.T, o.T, l.T, l.T), Ty: types.NewSlice(types.Typ[types.Uint8])}
 	case "wire":
 		// wire(r, k): k-th byte of the (immutable, infinite) byte stream behind reader r
 		need(2)
